@@ -35,6 +35,7 @@ import (
 	"testing"
 	"time"
 
+	abcicli "github.com/tendermint/tendermint/abci/client"
 	abci "github.com/tendermint/tendermint/abci/types"
 
 	"github.com/cosmos/cosmos-sdk/client"
@@ -58,6 +59,7 @@ import (
 	"github.com/tharsis/ethermint/tests"
 	evm "github.com/tharsis/ethermint/x/evm/types"
 
+	"github.com/teleport-network/teleport/app"
 	"github.com/teleport-network/teleport/syscontracts"
 	erc20contracts "github.com/teleport-network/teleport/syscontracts/erc20"
 	stakingcontract "github.com/teleport-network/teleport/syscontracts/staking"
@@ -223,9 +225,62 @@ func c14GenTx(gen client.TxConfig, msgs []sdk.Msg, gas uint64, chainID string, a
 	return tx.GetTx(), nil
 }
 
+// c14Deep puts n extra frames on the call stack before running f.
+//
+//go:noinline
+func c14Deep(n int, f func()) {
+	if n <= 0 {
+		f()
+		return
+	}
+	c14Deep(n-1, f)
+}
+
+// c14DeliverVia reaches DeliverTx the way a node does when Tendermint runs in process: through the ABCI local client,
+// below a few extra frames. A result that captures the call stack (a `%+v` of a wrapped error, runtime.Callers) differs
+// from the one of a direct call.
+func c14DeliverVia(a *app.Teleport, req abci.RequestDeliverTx) (res abci.ResponseDeliverTx) {
+	c14Deep(7, func() {
+		cl := abcicli.NewLocalClient(nil, a)
+		if r, err := cl.DeliverTxSync(req); err == nil && r != nil {
+			res = *r
+		} else {
+			res = a.BaseApp.DeliverTx(req)
+		}
+	})
+	return res
+}
+
+func c14EndBlockVia(a *app.Teleport, req abci.RequestEndBlock) (res abci.ResponseEndBlock) {
+	c14Deep(5, func() {
+		cl := abcicli.NewLocalClient(nil, a)
+		if r, err := cl.EndBlockSync(req); err == nil && r != nil {
+			res = *r
+		} else {
+			res = a.EndBlock(req)
+		}
+	})
+	return res
+}
+
+// twin a calls the application directly, twin b through the ABCI local client and a deeper stack
+func (w *c14World) deliverTx(a *app.Teleport, req abci.RequestDeliverTx) abci.ResponseDeliverTx {
+	if w.twin == "b" {
+		return c14DeliverVia(a, req)
+	}
+	return a.BaseApp.DeliverTx(req)
+}
+
+func (w *c14World) endBlock(a *app.Teleport, req abci.RequestEndBlock) abci.ResponseEndBlock {
+	if w.twin == "b" {
+		return c14EndBlockVia(a, req)
+	}
+	return a.EndBlock(req)
+}
+
 // finish ends the current block of a chain (EndBlock + Commit) and opens the next one.
 func (w *c14World) finish(c *xibctesting.TestChain) {
-	c.App.EndBlock(abci.RequestEndBlock{Height: c.CurrentHeader.Height})
+	w.endBlock(c.App, abci.RequestEndBlock{Height: c.CurrentHeader.Height})
 	c.App.Commit()
 	c.NextBlock()
 	w.coord.IncrementTime()
@@ -247,7 +302,7 @@ func (w *c14World) deliver(kind string, c *xibctesting.TestChain, msgs ...sdk.Ms
 		w.finish(c)
 		return abci.ResponseDeliverTx{Code: 1}
 	}
-	res := c.App.BaseApp.DeliverTx(abci.RequestDeliverTx{Tx: bz})
+	res := w.deliverTx(c.App, abci.RequestDeliverTx{Tx: bz})
 	w.recTx(kind, res)
 	w.finish(c)
 	return res
@@ -284,7 +339,7 @@ func (w *c14World) evmDeliver(kind string, c *xibctesting.TestChain, to common.A
 		w.finish(c)
 		return nil, false
 	}
-	res := c.App.BaseApp.DeliverTx(abci.RequestDeliverTx{Tx: bz})
+	res := w.deliverTx(c.App, abci.RequestDeliverTx{Tx: bz})
 	w.recTx(kind, res)
 	w.finish(c)
 	return res.Events, res.Code == 0
@@ -729,6 +784,41 @@ func (w *c14World) step(line string) {
 			w.pending = append(w.pending, c14Packet{src: i, packet: p, bz: ev.Packet})
 			return true
 		})
+	case "xbad": // a packet committed on the source chain by the keeper (as xibctesting's Endpoint.SendPacket does) whose receive
+		// callback FAILS on the destination: the error paths write acknowledgement bytes, events and state
+		i := ci(1)
+		c, cp := w.ch[i], w.ch[1-i]
+		if w.path == nil {
+			w.note("xbad:no-clients")
+			break
+		}
+		w.coord.UpdateTimeForChain(c)
+		ctx := c.GetContext()
+		seq := c.App.XIBCKeeper.PacketKeeper.GetNextSequenceSend(ctx, c.ChainID, cp.ChainID)
+		pk := packettypes.Packet{SrcChain: c.ChainID, DstChain: cp.ChainID, Sequence: seq, Sender: strings.ToLower(c.SenderAddress.String()),
+			CallbackAddress: common.Address{}.String(), FeeOption: 0}
+		junk := crypto.Keccak256([]byte("c14-junk-" + f[2]))
+		switch argi(2) % 4 {
+		case 0: // transfer data the packet contract cannot ABI-decode
+			pk.TransferData = junk
+		case 1: // call data the packet contract cannot ABI-decode
+			pk.CallData = append(junk, junk...)
+		case 2: // well-formed transfer of a token that is not bound on the destination: the callback returns a non-zero code
+			td := packettypes.TransferData{Receiver: strings.ToLower(cp.SenderAddress.String()), Amount: big.NewInt(7).FillBytes(make([]byte, 32)), Token: "0x00000000000000000000000000000000000000aa", OriToken: ""}
+			pk.TransferData, _ = td.ABIPack()
+		default: // well-formed call of a contract that does not exist
+			cd := packettypes.CallData{ContractAddress: "0x00000000000000000000000000000000000000bb", CallData: junk}
+			pk.CallData, _ = cd.ABIPack()
+		}
+		var e1 error
+		pan, _ := safely(func() { e1 = c.App.XIBCKeeper.PacketKeeper.SendPacket(ctx, &pk) })
+		w.note(fmt.Sprintf("xbad:%v:%v:e%s", pan, e1 == nil, c14Events(ctx.EventManager().ABCIEvents())))
+		w.finish(c)
+		if !pan && e1 == nil {
+			if bz, err := pk.ABIPack(); err == nil {
+				w.pending = append(w.pending, c14Packet{src: i, packet: pk, bz: bz})
+			}
+		}
 	case "relay": // update client on dst, MsgRecvPacket with proof, update client on src, MsgAcknowledgement with proof
 		if len(w.pending) == 0 || w.path == nil {
 			w.note("relay:nothing")
@@ -854,7 +944,7 @@ func (w *c14World) step(line string) {
 			w.coord.UpdateTimeForChain(cc)
 			ctx := cc.GetContext()
 			_ = ctx
-			res := cc.App.EndBlock(abci.RequestEndBlock{Height: cc.CurrentHeader.Height})
+			res := w.endBlock(cc.App, abci.RequestEndBlock{Height: cc.CurrentHeader.Height})
 			w.note("endblock:e" + c14Events(res.Events))
 			cc.App.Commit()
 			cc.NextBlock()
@@ -1077,6 +1167,14 @@ func c14Script(r *Rec, n int, eth int) []string {
 				r.Count("op.erc20")
 			}
 		case k < 56:
+			if rng.Intn(4) == 0 {
+				// a packet whose receive callback fails on the destination (undecodable transfer / call data, unbound token,
+				// missing contract): error acknowledgement written, acknowledgement callback on the source fails too
+				s = append(s, fmt.Sprintf("xbad %d %d", c, rng.Intn(8)))
+				pend++
+				r.Count("op.xbad")
+				break
+			}
 			op := "xsend"
 			if rng.Intn(5) == 0 {
 				op = "xsendk"
